@@ -543,7 +543,7 @@ Definition int16_ok (w : text) : bool :=
   let s := strip_ws int_strip w in
   let s := match s with c :: r => if (c =? 43) || (c =? 45) then r else s | [] => s end in
   match s with
-  | z :: x :: r => if (z =? 48) && ((x =? 120) || (x =? 88))
+  | z :: x :: r => if (match digit_value z with Some 0 => true | _ => false end) && ((x =? 120) || (x =? 88))   (* any Nd zero, then x / X *)
                    then match r with u :: r' => if u =? 95 then int_body int16_digit false r' else int_body int16_digit false r | [] => false end
                    else int_body int16_digit false s
   | _ => int_body int16_digit false s
